@@ -84,6 +84,7 @@ __CPROVER_assigns (psf->error, psf->pipeoffset, __CPROVER_object_whole (&gd))
 __CPROVER_ensures (g_seek_calls == __CPROVER_old (g_seek_calls) + 1 && g_seek_arg == samples_from_start && g_seek_mode == mode)
 __CPROVER_ensures (g_codec_calls == __CPROVER_old (g_codec_calls) && g_hdr_calls == __CPROVER_old (g_hdr_calls) && g_codec_ret == __CPROVER_old (g_codec_ret))
 __CPROVER_ensures (__CPROVER_return_value == samples_from_start || (__CPROVER_return_value == PSF_SEEK_ERROR && psf->error != 0))
+__CPROVER_ensures (__CPROVER_return_value == samples_from_start ==> psf->error == __CPROVER_old (psf->error))
 ;
 
 /* write_header: only the header cache, the file and the error code */
